@@ -234,7 +234,7 @@ func (tr *Tree) Load(t testing.TB, keys []string, format int) *conf.Conf {
 	return c
 }
 
-// StdContexts returns the three fixed contexts for a record path format.
+// StdContexts returns the four fixed contexts for a record path format.
 func (tr *Tree) StdContexts(t testing.TB, format int) []*Context {
 	var out []*Context
 	for _, d := range []struct {
@@ -244,6 +244,9 @@ func (tr *Tree) StdContexts(t testing.TB, format int) []*Context {
 		{"static", []string{"cam1", "a/b"}},
 		{"allothers", []string{"all_others"}},
 		{"regex", []string{"~^cam[0-9]+$", "~^a(.*)$"}},
+		// expressions that are not anchored match when they are FOUND in the name: the whole
+		// name, not the matched text, is what the statement's rules apply to
+		{"unanchored", []string{"~cam[0-9]+", "~a0"}},
 	} {
 		c := tr.Load(t, d.keys, format)
 		if c == nil {
